@@ -80,6 +80,7 @@ func Run(cfg hx.Config) error {
 	if err := h.sectionUpdaters(); err != nil {
 		r.Fail("", "an updater could not be run against the generated world: "+err.Error())
 	}
+	h.sectionWitnesses()
 	h.sectionFilterJoin()
 	h.sectionPipeline()
 	h.sectionRhel()
